@@ -679,3 +679,47 @@ Qed.
 Print Assumptions C15_e2e_adversarial_steps_are_admissible.
 Print Assumptions C15_e2e_operators_are_a_quorum_of_the_larger_set.
 Print Assumptions C15_governance_end_to_end_any_quorum_subset.
+(* ================================================================================================================================
+   Extension X11 - the contract's VAA entry point as TRANSLATED IN FULL from governance.ral (gen/x_ralverify.py ->
+   gen/ExtractedRalVerify.v: every statement of parseAndVerifyVAA incl. the signature loop, getGuardiansInfo; RalVerifyModel.ral_source).
+   X6's ral_receive (hand composition of ral_parse, the glue definitions and ral_sig_loop) IS that function with
+   isGovernanceVAA = true, for every byte string and every contract state holding ral_receive's set as current; so the pipeline's
+   contract-side theorems are theorems about the translated source (proofs/RalVerifyGovProofs.v). *)
+From WH Require model.RalVerifyModel proofs.RalVerifyGovProofs.
+
+Theorem C15_ral_receive_is_the_translated_entry_point : forall recover keccak ct st data,
+  RalVerifyModel.gs_cur_idx st = rc_gs_index ct -> RalVerifyModel.gs_cur st = rc_guardians ct ->
+  ral_receive recover keccak ct data = RalVerifyModel.ral_source keccak (eth_ec_recover recover) st true data.
+Proof. exact RalVerifyGovProofs.ral_receive_is_the_translated_source. Qed.
+
+(* C15_contract_envelope_parser_accepts_published, through the translated entry point: what a quorum of guardians publishes for a
+   governance request is accepted by governance.ral parseAndVerifyVAA(data, true) — whatever the previous set, its expiry and the
+   block time are — and the values handed to the governance checks are the request's *)
+Theorem C15_published_vaa_accepted_through_the_translated_entry_point : forall recover keccak ct w K pidx pset now pexp,
+  qvalid recover keccak w K -> wf w -> Forall (fun k => length k = 20%nat) K -> (0 < length K <= 255)%nat ->
+  rc_gs_index ct = gsidx w -> rc_guardians ct = guardians_of K ->
+  RalVerifyModel.ral_source keccak (eth_ec_recover recover)
+    {| RalVerifyModel.gs_cur_idx := rc_gs_index ct; RalVerifyModel.gs_cur := rc_guardians ct; RalVerifyModel.gs_prev_idx := pidx;
+       RalVerifyModel.gs_prev := pset; RalVerifyModel.gs_now := now; RalVerifyModel.gs_prev_exp := pexp |} true (marshal w) =
+  Some [RZ (echain w); RZ (tchain w); RB (eaddr w); RZ (seq w); RB (payload w)].
+Proof.
+  intros recover keccak ct w K pidx pset now pexp Hq W FK LK Hgi Hg.
+  apply (RalVerifyGovProofs.ral_source_accepts_published recover keccak ct _ w K Hq W FK LK Hgi Hg); reflexivity.
+Qed.
+
+(* non-vacuity: the example request of above (gx_v, operators 0..2 of gx_G signing with the toy oracles) goes through the translated
+   source of a contract holding gx_G, and through ral_receive, with the same result; one signature short it does not *)
+Example C15_translated_entry_point_ex :
+  let d := dg gx_keccak gx_v in
+  let sg (i : nat) := {| s_idx := Z.of_nat i; s_data := gx_signs i d |} in
+  let st := {| RalVerifyModel.gs_cur_idx := 3; RalVerifyModel.gs_cur := guardians_of (keys gx_G); RalVerifyModel.gs_prev_idx := 2;
+               RalVerifyModel.gs_prev := []; RalVerifyModel.gs_now := 0; RalVerifyModel.gs_prev_exp := 0 |} in
+  RalVerifyModel.ral_source gx_keccak (eth_ec_recover gx_recover) st true (marshal (set_sigs gx_v [sg 0%nat; sg 1%nat; sg 2%nat]))
+    = Some [RZ 1; RZ 255; RB (g_addr ex_cfg); RZ 42; RB (go_TokenBridgeModule ++ [xf1; x03])] /\
+  ral_receive gx_recover gx_keccak (contract_for ex_cfg 255 42 gx_G) (marshal (set_sigs gx_v [sg 0%nat; sg 1%nat; sg 2%nat]))
+    = Some [RZ 1; RZ 255; RB (g_addr ex_cfg); RZ 42; RB (go_TokenBridgeModule ++ [xf1; x03])] /\
+  RalVerifyModel.ral_source gx_keccak (eth_ec_recover gx_recover) st true (marshal (set_sigs gx_v [sg 0%nat; sg 2%nat])) = None.
+Proof. vm_compute. repeat apply conj; reflexivity. Qed.
+
+Print Assumptions C15_ral_receive_is_the_translated_entry_point.
+Print Assumptions C15_published_vaa_accepted_through_the_translated_entry_point.
